@@ -86,7 +86,7 @@ theorem fftPath_eq (N : Mesh) (h1 : 0 < N.1) (h2 : 0 < N.2.1) (h3 : 0 < N.2.2)
     (Finv : (Vec3 → K) → Vec3 → K) (hF : IDFTContract N χ Finv)
     (χd : Vec3 → K) (entries : List (Vec3 × K)) (m : Vec3) (hm : m ∈ gridPoints N) :
     fftPath Finv N χd entries m = explicitSum (fun R => χ m R * χd R) entries := by
-  unfold fftPath
+  unfold fftPath fftCore
   rw [hF _ m hm, box_sum N h1 h2 h3 (χ m) (hper m), explicitSum_applyExpdK]
 
 end box
@@ -142,7 +142,7 @@ theorem slowPath_eq (ζ : K × K × K) (N : Mesh) (h1 : 0 < N.1) (h2 : 0 < N.2.1
     (χd : Vec3 → K) (entries : List (Vec3 × K)) (m : Vec3) :
     slowPath ζ N χd entries m = explicitSum (fun R => boxChar ζ m R * χd R) entries := by
   rw [← explicitSum_applyExpdK]
-  unfold slowPath explicitSum
+  unfold slowPath slowCore explicitSum
   apply sumK_map_congr
   intro e _
   simp only [vmod]
